@@ -179,6 +179,50 @@ func init() {
 			distinct += len(classes)
 		}
 
+		// ---- observations that go on while a period is being summarised: the period is swapped out,
+		// observations of the NEXT period are recorded, then the percentiles of the swapped-out period
+		// are computed (the order of events when /metrics is read under traffic) — they are still
+		// observations of that period, and the next period holds exactly the later observations
+		{
+			id := metrics.AddHistogram(fmt.Sprintf("verif_interleaved_%d", seed), false, nil)
+			metrics.VerifHistPeriod(id)
+			for round := 0; round < 6; round++ {
+				n := []int{10, 100, 1000, 5, 32768, 40000}[round]
+				crumb(fmt.Sprintf("a histogram period of %d observations is swapped out, 3 later observations are recorded, then its percentiles are computed", n), nil)
+				set := map[uint64]bool{}
+				for i := 0; i < n; i++ {
+					v := uint64(100 + r.Intn(900))
+					set[v] = true
+					metrics.ObserveHist(id, v)
+				}
+				later := []uint64{5000000 + uint64(round), 6000000, 7000000}
+				count, _, min, max, pctls := metrics.VerifHistPeriodInterleaved(id, later)
+				rep.Evaluations++
+				rep.Distribution["interleaved-periods"]++
+				ok := true
+				if count != uint64(n) {
+					ok = false
+					viol(fmt.Sprintf("a period of %d observations read while 3 later observations arrive is reported with count %d", n, count), "hist-interleaved-count", map[string]interface{}{"n": n})
+				}
+				for i, pv := range pctls {
+					if !set[pv] || pv < min || pv > max {
+						ok = false
+						viol(fmt.Sprintf("a period of %d observations in [100, 1000) is swapped out, then %v are observed, then its percentiles are computed: slot %d reports %d (min %d, max %d) — not an observation of that period", n, later, i, pv, min, max),
+							"hist-interleaved-percentile", map[string]interface{}{"n": n, "later": later, "slot": i, "value": pv})
+						break
+					}
+				}
+				c2, _, min2, max2, _ := metrics.VerifHistPeriod(id)
+				if c2 != 3 || min2 != later[0] || max2 != later[2] {
+					ok = false
+					viol(fmt.Sprintf("the period after it holds count %d, min %d, max %d; the 3 later observations were %v", c2, min2, max2, later), "hist-interleaved-next", map[string]interface{}{"n": n})
+				}
+				if ok {
+					rep.Validated++
+				}
+			}
+		}
+
 		// ---- counters under concurrency
 		for _, g := range []int{2, 8, 32} {
 			id := metrics.AddCounter(fmt.Sprintf("verif_ctr_%d_%d", seed, g), nil)
